@@ -1,6 +1,5 @@
 /-
-C04 helper lemmas, part 2: `split` of the indentation vendors (Common, Huawei, Nexus-like, Asr, Cisco
-without `address-family` rows) undoes `join` line by line.
+C04 helper lemmas, part 2: `split` of the indentation vendors (Common, Huawei, Nexus-like, Asr, Cisco) undoes `join` line by line.
 -/
 import AnnetModel.Lemmas.FormatSplitBase
 
@@ -187,23 +186,38 @@ theorem asr_keep (n : Nat) (r : Str)
   obtain ⟨c, cs, e, hc⟩ := asr_heads p hp
   exact suffix_blanks p c cs e hc n r hs
 
-/-! ## Cisco: the loop without `address-family` rows -/
+/-! ## Cisco: without an `exit-address-family` line no section is ever "closed at the same indent" -/
+
+theorem closedAtSameIndentGo_false (level : Nat) (ls : List Str)
+    (h : ∀ l ∈ ls, strip l ≠ exitAddressFamily) :
+    ∀ first, closedAtSameIndentGo level exitAddressFamily first ls = false := by
+  induction ls with
+  | nil => intro first; simp [closedAtSameIndentGo]
+  | cons l rest ih =>
+    intro first
+    have hl : (strip l == exitAddressFamily) = false := by
+      simpa using h l (by simp)
+    have hrest : ∀ x ∈ rest, strip x ≠ exitAddressFamily := fun x hx => h x (by simp [hx])
+    simp only [closedAtSameIndentGo, hl, Bool.and_false, Bool.false_eq_true, if_false, ih hrest]
+    split <;> rfl
 
 theorem ciscoLoop_id (ls : List Str) : ∀ (indent : Int) (exits : List Str), indent ≤ 0 →
-    (∀ l ∈ ls, addressFamily.isPrefixOf (strip l) = false) →
+    (∀ l ∈ ls, strip l ≠ exitAddressFamily) →
     ciscoLoop ls indent exits = ls := by
   induction ls with
   | nil => intro indent exits _ _; simp [ciscoLoop]
   | cons l rest ih =>
     intro indent exits hi h
-    have hl := h l (by simp)
-    have hrest : ∀ x ∈ rest, addressFamily.isPrefixOf (strip x) = false :=
+    have hrest : ∀ x ∈ rest, strip x ≠ exitAddressFamily :=
       fun x hx => h x (by simp [hx])
-    simp only [ciscoLoop, ciscoSplitIndent, hl, Bool.false_eq_true, if_false]
+    simp only [ciscoLoop, ciscoSplitIndent, closedAtSameIndent,
+      closedAtSameIndentGo_false _ rest hrest, Bool.false_eq_true, if_false]
     rw [Int.toNat_of_nonpos hi]
     split
     · rw [ih _ _ (by omega) hrest]; simp
-    · rw [ih _ _ hi hrest]; simp
+    · split
+      · rw [ih _ _ hi hrest]; simp
+      · rw [ih _ _ hi hrest]; simp
 
 /-! ## the five formatters -/
 
@@ -302,7 +316,7 @@ theorem split_join_indent (k : Kind)
     intro l hl
     obtain ⟨n, r, rfl, hr⟩ := mem_render _ w 0 t h l hl
     rw [strip_line n _ (rowOk_base _ r hr)]
-    simp only [rowOk, Bool.and_eq_true, Bool.not_eq_true'] at hr
+    simp only [rowOk, Bool.and_eq_true, bne_iff_ne] at hr
     exact hr.2.2
 
 end Annet.FormatSplit.Lemmas
